@@ -151,6 +151,23 @@ def gen_cases(tier, seed):
                 s['plan'] = {'faults': [dict(singles[a], tag=f'FAULT-{bi}-a{a}'), dict(singles[b], tag=f'FAULT-{bi}-b{b}')],
                              'delay_p': rng.choice([0.0, 0.3])}
                 cases.append(s)
+    # pairs the single-fault enumeration cannot reach: a retryable stream error after some bytes, and then the subscriber's
+    # on_progress raising on the call that takes the abandoned attempt's progress back
+    for bi, base in enumerate(base_scenarios(rng)):
+        t = base['transfers'][0]
+        if t['kind'] != 'download' or base.get('executor'):
+            continue
+        keys, bodies, upbodies, ok = dry_keys(base)
+        for k, n in bodies.items():
+            if n < 2:
+                continue
+            for kind in (STREAM_KINDS if not quick else rng.sample(STREAM_KINDS, 2)):
+                s = copy.deepcopy(base)
+                s['seed'] = rng.randrange(1 << 30)
+                s['family'] = 'rewind-callback'
+                s['plan'] = {'faults': [{'at': k, 'phase': 'body', 'kind': kind, 'bytes': rng.choice([1, n // 2, n - 1]), 'tag': f'FAULT-{bi}-stream'},
+                                        {'at': 't0/cb:on_progress_rewind:s0#0', 'phase': 'before', 'kind': rng.choice(['exc', 'oserror']), 'tag': f'FAULT-{bi}-rewind'}]}
+                cases.append(s)
     # BaseException family (not an Exception: KeyboardInterrupt / SystemExit-like) raised inside request-stage work
     for bi, base in enumerate(base_scenarios(rng)):
         t = base['transfers'][0]
